@@ -87,8 +87,8 @@ STATS_LOCS = {"Fiber._saved_pos", "Fiber._saved_count", "Fiber._saved_dist"}
 
 
 def strip(r):
-    while r[0] == "sub":
-        r = r[1]
+    while r[0] in ("sub", "hf"):
+        r = r[1] if r[0] == "sub" else r[2]
     return r
 
 
@@ -116,6 +116,26 @@ def fields_of(r):
 
 def plain(roots):
     return {strip(r) for r in roots}
+
+
+def untag(h):
+    """('hf', field, root) -> root"""
+    while h[0] == "hf":
+        h = h[2]
+    return h
+
+
+def untag_all(hs, field=None):
+    """Drop held roots known to sit under a different field; untag the rest."""
+    out = set()
+    for h in hs:
+        if h[0] == "hf":
+            if field is not None and h[1] != field:
+                continue
+            out.add(untag(h))
+        else:
+            out.add(h)
+    return out
 
 
 def is_tree_loc(loc):
@@ -329,6 +349,9 @@ class FuncCtx:
         """local name -> [(first-level field | None, stored value expr)]"""
         sf = self.store_facts
         for n in own_nodes(self.f):
+            if isinstance(n, ast.AugAssign) and not isinstance(
+                    n.value, (ast.List, ast.ListComp)):
+                continue        # in-place arithmetic stores no reference
             if isinstance(n, (ast.Assign, ast.AugAssign, ast.AnnAssign)):
                 targets = n.targets if isinstance(n, ast.Assign) else [n.target]
                 for t in targets:
@@ -346,6 +369,9 @@ class FuncCtx:
 
     def reach(self, node):
         return plain(self.R(node)) | self.H(node)
+
+    def reach_t(self, node):
+        return plain(self.R(node)) | self.Ht(node)
 
     # -- identity roots ---------------------------------------------------------
     def R(self, node, path=()):
@@ -406,13 +432,16 @@ class FuncCtx:
         return set()
 
     # -- held roots -----------------------------------------------------------
-    def H(self, node):
+    def H(self, node, field=None):
+        return untag_all(self.Ht(node), field)
+
+    def Ht(self, node):
         if node is None or isinstance(node, (ast.Constant, ast.JoinedStr,
                                              ast.Compare, ast.Lambda,
                                              ast.UnaryOp)):
             return set()
         if isinstance(node, ast.Name):
-            return self._name_H(node.id, node)
+            return self._name_Ht(node.id, node)
         if isinstance(node, (ast.Tuple, ast.List, ast.Set)):
             out = set()
             for e in node.elts:
@@ -429,14 +458,14 @@ class FuncCtx:
         if isinstance(node, ast.DictComp):
             return self.reach(node.value) - {FRESH}
         if isinstance(node, ast.Starred):
-            return self.H(node.value)
+            return self.Ht(node.value)
         if isinstance(node, ast.BoolOp):
             out = set()
             for v in node.values:
-                out |= self.H(v)
+                out |= self.Ht(v)
             return out
         if isinstance(node, ast.IfExp):
-            return self.H(node.body) | self.H(node.orelse)
+            return self.Ht(node.body) | self.Ht(node.orelse)
         if isinstance(node, ast.BinOp):
             lt = self.ty.expr(self.f, node.left)
             rt = self.ty.expr(self.f, node.right)
@@ -447,10 +476,14 @@ class FuncCtx:
             return set()
         if isinstance(node, ast.Call):
             return self._call_value(node, ())[1]
-        if isinstance(node, (ast.Subscript, ast.Attribute)):
-            return self.H(node.value)
+        if isinstance(node, ast.Attribute):
+            if isinstance(node.value, ast.Name):
+                return self._name_H(node.value.id, node.value, node.attr)
+            return self.H(node.value, node.attr)
+        if isinstance(node, ast.Subscript):
+            return self.Ht(node.value)
         if isinstance(node, ast.NamedExpr):
-            return self.H(node.value)
+            return self.Ht(node.value)
         return set()
 
     def _name_R(self, name, path, node=None):
@@ -473,7 +506,10 @@ class FuncCtx:
         for _ in range(6):
             before = set(out)
             self.envR[key] = set(out)
-            for kind, value, fpath in facts:
+            for fa in facts:
+                kind, value, fpath = fa
+                if isinstance(fa.stmt, ast.AugAssign):
+                    continue        # in-place operators return the same object
                 full = tuple(fpath) + tuple(path)
                 if kind == "expr":
                     out |= self.R(value, full)
@@ -488,6 +524,9 @@ class FuncCtx:
         return out
 
     def _name_H(self, name, node=None, field=None):
+        return untag_all(self._name_Ht(name, node, field), field)
+
+    def _name_Ht(self, name, node=None, field=None):
         facts, is_param = self.ty.facts_at(self.f, name, node)
         key = (name, frozenset(id(x) for x in facts), field)
         if key in self.envH:
@@ -499,12 +538,21 @@ class FuncCtx:
         for _ in range(6):
             before = set(out)
             self.envH[key] = set(out)
-            for kind, value, fpath in facts:
+            for fa in facts:
+                kind, value, fpath = fa
+                if isinstance(fa.stmt, ast.AugAssign):
+                    continue
                 if kind == "expr":
-                    out |= self.H(value)
+                    out |= self.Ht(value)
                 elif kind == "add":
                     out |= self.reach(value)
                 elif kind == "elem":
+                    if fpath and self._lazy_source(value) is not None:
+                        continue    # element roots are path-sensitive (R)
+                    et = T.flat(T.project(self.ty.elem_shape(self.f, value),
+                                          fpath))
+                    if et and et <= T.IMMUTABLE:
+                        continue    # e.g. the coordinate of a fiber element
                     out |= self.H(value)
             for fld, v in self.store_facts.get(name, []):
                 if field is None or fld is None or fld == field:
@@ -576,12 +624,74 @@ class FuncCtx:
                 return set()
         if isinstance(it, ast.Attribute) and it.attr in IMM_ELEM_FIELDS:
             return set()
+        if path:
+            lz = self._lazy_elem(it, path)
+            if lz is not None:
+                return lz
         es = self.ty.elem_shape(f, it)
         if path and path[0] == 0 and es == T.CP_SHAPE:
             return set()                # the coordinate of a fiber element
         if not isinstance(es, tuple) and es and es <= T.IMMUTABLE:
             return set()
         return sub(self.R(it)) | sub(self.H(it))
+
+    def _lazy_source(self, it, depth=0):
+        """(builder function, argmap) when `it` is the lazy fiber built by a
+        co-iteration operator / builder call."""
+        if depth > 3:
+            return None
+        if isinstance(it, ast.BinOp):
+            lt = self.ty.expr(self.f, it.left)
+            rt = self.ty.expr(self.f, it.right)
+            if _is_fiber(lt) or _is_fiber(rt):
+                m, amap = self._binop_method(it)
+                if m is not None and m in self.eff.lazy_iters:
+                    return m, amap
+            return None
+        if isinstance(it, ast.Call):
+            tg = self.ty.resolve(self.f, it)
+            if tg.kind in ("resolved", "byname") and len(tg.funcs) == 1 and \
+                    tg.funcs[0] in self.eff.lazy_iters:
+                return tg.funcs[0], self.argmap(it, tg.funcs[0], tg)
+            return None
+        if isinstance(it, ast.Name):
+            facts, is_param = self.ty.facts_at(self.f, it.id, it)
+            if not is_param and len(facts) == 1 and facts[0].kind == "expr" \
+                    and not facts[0].path:
+                return self._lazy_source(facts[0].value, depth + 1)
+        return None
+
+    def _lazy_elem(self, it, path):
+        """Path-sensitive roots of an element of a lazily built fiber: taken
+        from the yield expressions of the iterator class it was built from."""
+        src = self._lazy_source(it)
+        if src is None:
+            return None
+        builder, amap = src
+        out = set()
+        for call, ci in self.eff.lazy_iters.get(builder, []):
+            itf = ci.methods.get("__iter__")
+            if itf is None:
+                return None
+            ictx = self.eff._ctx(itf)
+            ys = [n for n in own_nodes(itf) if isinstance(n, ast.Yield)
+                  and n.value is not None]
+            for y in ys:
+                for r in ictx.R(y.value, path):
+                    issub = r[0] == "sub"
+                    b = strip(r)
+                    if b == FRESH:
+                        out.add(FRESH)
+                    elif b[0] == "o" and b[1] == builder.key:
+                        inner = b[2]
+                        if inner == FRESH:
+                            out.add(FRESH)
+                            continue
+                        rr = ("sub", inner, r[2]) if issub else inner
+                        out |= self.map_root(rr, amap)
+                    else:
+                        out.add(r)
+        return out
 
     def _attr_R(self, node):
         f = self.f
@@ -672,10 +782,13 @@ class FuncCtx:
             return set()
         if isinstance(a, tuple):
             return self.H(a[1])
-        if isinstance(a, ast.Name) and fields:
+        if fields:
             out = set()
             for fld in fields:
-                out |= self._name_H(a.id, a, fld)
+                if isinstance(a, ast.Name):
+                    out |= self._name_H(a.id, a, fld)
+                else:
+                    out |= self.H(a, fld)
             return out
         return self.H(a)
 
@@ -707,6 +820,8 @@ class FuncCtx:
         return {r}
 
     def map_held(self, r, amap):
+        if r[0] == "hf":
+            return {("hf", r[1], x) for x in self.map_held(r[2], amap)}
         b = strip(r)
         if b[0] == "p":
             out = set()
@@ -823,6 +938,17 @@ class FuncCtx:
             return {FRESH}, held - {FRESH}
         funcs = self._callees(call, tg)
         Rs, Hs = set(), set()
+        if path and funcs and tg.kind in ("resolved", "byname") and \
+                not any(c.is_generator for c in funcs):
+            for callee in funcs:
+                amap = self.argmap(call, callee, tg)
+                cctx = self.eff._ctx(callee)
+                for n in own_nodes(callee):
+                    if isinstance(n, ast.Return) and n.value is not None:
+                        for r in cctx.R(n.value, path):
+                            Rs |= {FRESH} if strip(r) == FRESH else \
+                                self.map_root(r, amap)
+            return Rs, set()
         for callee in funcs:
             amap = self.argmap(call, callee, tg)
             r, h = self._summary_value(callee, amap)
@@ -1131,7 +1257,7 @@ class FuncCtx:
                 self._special(n.value, ["__getitem__"], n)
             elif isinstance(n, ast.Return) and n.value is not None:
                 out.rets |= self.R(n.value)
-                out.hrets |= self.H(n.value)
+                out.hrets |= self.Ht(n.value)
             elif isinstance(n, (ast.Yield, ast.YieldFrom)) and n.value is not None:
                 out.hrets |= self.reach(n.value)
             elif isinstance(n, ast.FormattedValue):
@@ -1144,7 +1270,8 @@ class FuncCtx:
             if it is not None:
                 s = self.eff.summary(it)
                 for r in s.hrets | s.rets:
-                    out.hrets |= self.map_held(r, {})
+                    for h in self.map_held(r, {}):
+                        out.hrets.add(("hf", "iter", untag(h)))
         out.hrets = {r for r in out.hrets if r != FRESH}
         if f.is_generator:
             out.rets = {FRESH}
